@@ -1,2 +1,308 @@
-(* Proofs/TrieProofsB.v *)
+(* Proofs/TrieProofsB.v — Delete: the stack-and-prune loops equal a recursive
+   deletion, which refines spec_delete; histories (C15 refinement). *)
+From Coq Require Import String Sorting.Sorted Permutation.
 From Bio Require Import Base.
+From Bio.Model Require Import Trie.
+From Bio.Spec Require Import TrieSpec.
+From Bio.Proofs Require Import TrieProofs.
+
+Local Open Scope N_scope.
+
+(* ---- the recursive reading of Delete ------------------------------------------------------ *)
+(* What the node becomes; a childless result tells the parent to drop the edge
+   (the end of the path counts as childless: its edge is the one removed first). *)
+Fixpoint rdel (b : bytes) (t : trie) : option trie :=
+  match b with
+  | [] => Some (T [])
+  | k :: b' =>
+    match t with
+    | T l =>
+      match mget k l with
+      | None => None
+      | Some c =>
+        match rdel b' c with
+        | None => None
+        | Some c' => if is_nil (children c') then Some (T (mdel k l))
+                     else Some (T (mset k c' l))
+        end
+      end
+    end
+  end.
+
+(* the state of the second loop when the node below has become [n] *)
+Definition finish (n : trie) (st : list (trie * byte)) (root : trie) : trie :=
+  if is_nil (children n) && negb (is_nil st) then prune st root else rebuild n st.
+
+Lemma prune_cons l k rest root :
+  prune ((T l, k) :: rest) root = finish (T (mdel k l)) rest root.
+Proof. reflexivity. Qed.
+
+Lemma build_stack_has : forall b c acc, build_stack c b acc = None <-> has b c = false.
+Proof.
+  induction b as [|k b IH]; intros c acc; cbn.
+  - split; discriminate.
+  - destruct (mget k (children c)); [apply IH | tauto].
+Qed.
+
+Lemma rdel_has : forall b t, rdel b t = None <-> has b t = false.
+Proof.
+  induction b as [|k b IH]; intros [l]; cbn.
+  - split; discriminate.
+  - destruct (mget k l) as [c|]; [|tauto].
+    specialize (IH c). destruct (rdel b c) as [c'|].
+    + destruct (is_nil (children c')); split; try discriminate; intro E; apply IH in E; discriminate.
+    + split; auto. intros _. apply IH. reflexivity.
+Qed.
+
+Lemma stack_rdel : forall b c acc st root, b <> [] ->
+  build_stack c b acc = Some st ->
+  exists c', rdel b c = Some c' /\ prune st root = finish c' acc root.
+Proof.
+  induction b as [|k b IH]; intros [l] acc st root N B; [congruence|].
+  cbn [build_stack children] in B. cbn [rdel].
+  destruct (mget k l) as [d|] eqn:G; [|discriminate].
+  destruct b as [|k2 b2].
+  - cbn in B. inversion B; subst st. cbn. eexists. split; [reflexivity|].
+    apply prune_cons.
+  - destruct (IH d ((T l, k) :: acc) st root) as [d' [R P]]; [discriminate | exact B |].
+    rewrite R. rewrite P. unfold finish at 1. cbn [is_nil negb andb].
+    destruct (is_nil (children d')) eqn:L.
+    + eexists. split; [reflexivity|]. cbn [andb]. apply prune_cons.
+    + eexists. split; [reflexivity|]. cbn [andb rebuild]. unfold finish. cbn [children].
+      destruct (mset k d' l) eqn:M; [exfalso; eapply mset_not_nil; eauto|]. reflexivity.
+Qed.
+
+Lemma finish_top n root : finish n [] root = n.
+Proof. unfold finish. cbn. rewrite andb_false_r. reflexivity. Qed.
+
+Theorem delete_eq b t :
+  delete b t =
+  if has b t then (match b with
+                   | [] => t
+                   | _ => match rdel b t with Some t' => t' | None => t end
+                   end, true)
+  else (t, false).
+Proof.
+  unfold delete. destruct (build_stack t b []) as [st|] eqn:B.
+  - destruct (has b t) eqn:Hb.
+    + destruct b as [|k b].
+      * cbn in B. inversion B. reflexivity.
+      * destruct (stack_rdel (k :: b) t [] st t) as [c' [R P]]; [discriminate | auto |].
+        rewrite R, P, finish_top. reflexivity.
+    + apply build_stack_has with (acc := []) in Hb. congruence.
+  - apply build_stack_has in B. rewrite B. reflexivity.
+Qed.
+
+(* ---- properties of the recursive deletion ---------------------------------------------------- *)
+Lemma wf_rdel : forall b t t', wf t -> rdel b t = Some t' -> wf t'.
+Proof.
+  induction b as [|k b IH]; intros [l] t' W R; cbn [rdel] in R.
+  - inversion R. apply wf_empty.
+  - destruct (mget k l) as [c|] eqn:G; [|discriminate].
+    destruct (rdel b c) as [c'|] eqn:Rc; [|discriminate].
+    destruct (is_nil (children c')); inversion R; subst t'.
+    + apply wf_mdel; auto.
+    + apply wf_mset; auto. eapply IH; [|exact Rc]. eapply wf_child; eauto.
+Qed.
+
+Lemma is_nil_true {A} (l : list A) : is_nil l = true -> l = [].
+Proof. destruct l; cbn; congruence. Qed.
+
+(* when the node comes back childless, every leaf below it had the prefix *)
+Lemma rdel_leaf_all : forall b t t' x, rdel b t = Some t' -> children t' = [] ->
+  walk x t = Some (T []) -> is_prefix b x = true.
+Proof.
+  induction b as [|k b IH]; intros [l] t' x R C Wk; [reflexivity|].
+  cbn [rdel] in R. destruct (mget k l) as [c|] eqn:G; [|discriminate].
+  destruct (rdel b c) as [c'|] eqn:Rc; [|discriminate].
+  destruct (is_nil (children c')) eqn:L; inversion R; subst t'; cbn [children] in C.
+  - pose proof (mdel_nil_single _ _ _ G C) as E. subst l.
+    destruct x as [|k' x].
+    + cbn in Wk. inversion Wk.
+    + cbn [walk children mget] in Wk. cbn [is_prefix].
+      destruct (k =? k') eqn:E; [|discriminate]. cbn [andb].
+      eapply IH; eauto. apply is_nil_true; auto.
+  - exfalso. eapply mset_not_nil; eauto.
+Qed.
+
+Lemma rdel_leaves : forall b t t' x, wf t -> b <> [] -> rdel b t = Some t' -> x <> [] ->
+  (walk x t' = Some (T []) <-> walk x t = Some (T []) /\ is_prefix b x = false).
+Proof.
+  induction b as [|k b IH]; intros [l] t' x W Nb R Nx; [congruence|].
+  cbn [rdel] in R. destruct (mget k l) as [c|] eqn:G; [|discriminate].
+  destruct (rdel b c) as [c'|] eqn:Rc; [|discriminate].
+  destruct x as [|k' x]; [congruence|].
+  assert (S : sorted l) by (apply wf_inv in W; tauto).
+  assert (Wc : wf c) by (eapply wf_child; eauto).
+  cbn [is_prefix].
+  destruct (N.eq_dec k' k) as [->|NE].
+  - rewrite N.eqb_refl. cbn [andb].
+    destruct (is_nil (children c')) eqn:L; inversion R; subst t'; cbn [walk children].
+    + rewrite mget_mdel_same, G; auto. split; [discriminate|].
+      intros [Wk P]. apply is_nil_true in L.
+      rewrite (rdel_leaf_all _ _ _ _ Rc L Wk) in P. discriminate.
+    + rewrite mget_mset_same, G.
+      destruct b as [|k2 b2].
+      * cbn in Rc. inversion Rc; subst c'. cbn in L. discriminate.
+      * destruct x as [|k3 x3].
+        -- cbn [walk]. split.
+           ++ intro E. inversion E; subst c'. cbn in L. discriminate.
+           ++ intros [E _]. inversion E; subst c. cbn in Rc. discriminate.
+        -- apply IH; auto; discriminate.
+  - assert (E : (k =? k') = false) by (apply N.eqb_neq; auto). rewrite E. cbn [andb].
+    destruct (is_nil (children c')); inversion R; subst t'; cbn [walk children].
+    + rewrite mget_mdel_other; auto. tauto.
+    + rewrite mget_mset_other; auto. tauto.
+Qed.
+
+(* ---- Delete refines spec_delete ----------------------------------------------------------------- *)
+Theorem delete_refines b t : wf t ->
+  wf (fst (delete b t)) /\
+  seteq (members (fst (delete b t))) (fst (spec_delete b (members t))) /\
+  snd (delete b t) = snd (spec_delete b (members t)).
+Proof.
+  intro W. rewrite delete_eq. destruct b as [|k b].
+  - cbn. split; auto. split; auto. intro; tauto.
+  - unfold spec_delete. cbn [fst snd]. rewrite <- has_existsb; auto; [|discriminate].
+    destruct (has (k :: b) t) eqn:Hb; cbn [fst snd].
+    + destruct (rdel (k :: b) t) as [t'|] eqn:R; [|apply rdel_has in R; congruence].
+      assert (W' : wf t') by (eapply wf_rdel; eauto).
+      split; auto. split; auto.
+      intro x. rewrite filter_In, !members_iff; auto. split.
+      * intros [N Wk].
+        pose proof (rdel_leaves (k :: b) t t' x W ltac:(discriminate) R N) as Hx.
+        apply Hx in Wk as [Wk P]. rewrite P. auto.
+      * intros [[N Wk] P]. split; auto.
+        apply (rdel_leaves (k :: b) t t' x W ltac:(discriminate) R N).
+        split; auto. apply negb_true_iff. auto.
+    + split; auto. split; auto.
+      intro x. rewrite filter_In. split; [|tauto]. intro I. split; auto.
+      apply negb_true_iff. destruct (is_prefix (k :: b) x) eqn:P; auto.
+      rewrite has_existsb in Hb; auto; [|discriminate].
+      assert (existsb (is_prefix (k :: b)) (members t) = true) by (apply existsb_exists; eauto).
+      congruence.
+Qed.
+
+(* ---- histories ------------------------------------------------------------------------------------ *)
+Lemma run_cons o r t :
+  run (o :: r) t = (fst (run r (fst (apply_op o t))), snd (apply_op o t) :: snd (run r (fst (apply_op o t)))).
+Proof.
+  cbn [run]. destruct (apply_op o t) as [t1 res]. cbn [fst snd].
+  destruct (run r t1). reflexivity.
+Qed.
+
+Lemma spec_run_cons o r M :
+  spec_run (o :: r) M = (fst (spec_run r (fst (spec_apply o M))),
+                         snd (spec_apply o M) :: snd (spec_run r (fst (spec_apply o M)))).
+Proof.
+  cbn [spec_run]. destruct (spec_apply o M) as [M1 res]. cbn [fst snd].
+  destruct (spec_run r M1). reflexivity.
+Qed.
+
+(* the state after a history is the fold of the single steps *)
+Lemma run_fold ops t : fst (run ops t) = fold_left (fun t o => fst (apply_op o t)) ops t.
+Proof.
+  revert t; induction ops as [|o r IH]; intro t; [reflexivity|].
+  rewrite run_cons. cbn [fst fold_left]. apply IH.
+Qed.
+
+Theorem step_refines o t M : wf t -> seteq (members t) M ->
+  wf (fst (apply_op o t)) /\
+  seteq (members (fst (apply_op o t))) (fst (spec_apply o M)) /\
+  snd (apply_op o t) = snd (spec_apply o M).
+Proof.
+  intros W S. destruct o as [b|b]; cbn [apply_op spec_apply].
+  - cbn [fst snd]. split; [apply wf_add; auto|]. split; auto.
+    intro x. rewrite (add_refines b t W x). apply spec_add_seteq. auto.
+  - destruct (delete_refines b t W) as [W' [S' R']].
+    destruct (spec_delete_seteq b _ _ S) as [S2 R2].
+    destruct (delete b t) as [t' r]. destruct (spec_delete b M) as [M' r'].
+    cbn [fst snd] in *. split; auto. split.
+    + intro x. rewrite (S' x). apply S2.
+    + congruence.
+Qed.
+
+Theorem run_refines : forall ops t M, wf t -> seteq (members t) M ->
+  wf (fst (run ops t)) /\
+  seteq (members (fst (run ops t))) (fst (spec_run ops M)) /\
+  snd (run ops t) = snd (spec_run ops M).
+Proof.
+  induction ops as [|o r IH]; intros t M W S.
+  - cbn. auto.
+  - rewrite run_cons, spec_run_cons. cbn [fst snd].
+    destruct (step_refines o t M W S) as [W1 [S1 R1]].
+    destruct (IH _ _ W1 S1) as [W2 [S2 R2]].
+    split; auto. split; auto. congruence.
+Qed.
+
+(* ---- no duplicates: set equality is equality up to permutation --------------------------------------- *)
+Lemma NoDup_app_intro {A} (a b : list A) :
+  NoDup a -> NoDup b -> (forall x, In x a -> ~ In x b) -> NoDup (a ++ b).
+Proof.
+  induction a as [|y a IH]; cbn; intros Na Nb D; auto.
+  inversion Na; subst. constructor.
+  - rewrite in_app_iff. intros [I|I]; [contradiction|]. eapply D; eauto.
+  - apply IH; auto.
+Qed.
+
+Lemma NoDup_map_cons {A} (k : A) (l : list (list A)) : NoDup l -> NoDup (map (cons k) l).
+Proof.
+  intro N. apply FinFun.Injective_map_NoDup; auto. intros a b E. congruence.
+Qed.
+
+Lemma child_members_head x k c : In x (child_members k c) -> exists x', x = k :: x'.
+Proof. intro I. apply in_child_members in I as [x' [E _]]. eauto. Qed.
+
+Theorem members_NoDup : forall t, wf t -> NoDup (members t).
+Proof.
+  induction t as [l IH] using trie_ind2. intro W. rewrite members_unfold.
+  apply wf_inv in W as [S W].
+  induction l as [|[k c] r IHr]; cbn [flat_map]; [constructor|].
+  apply sorted_inv in S as [S F]. cbn [fst snd].
+  apply NoDup_app_intro.
+  - pose proof (Forall_inv IH) as IHc. cbn in IHc.
+    unfold child_members. destruct c as [[|kc rc]]; [repeat constructor; intros []|].
+    apply NoDup_map_cons. apply IHc. eapply W. left. reflexivity.
+  - apply IHr; auto.
+    + eapply Forall_inv_tail; eauto.
+    + intros k' c' I. eapply W. right. eauto.
+  - intros x I J. apply child_members_head in I as [x' ->].
+    apply in_flat_map in J as [[k' c'] [I' J]]. cbn [fst snd] in J.
+    apply child_members_head in J as [x'' E]. inversion E; subst k'.
+    apply F in I'. lia.
+Qed.
+
+Lemma spec_apply_NoDup o M : NoDup M -> NoDup (fst (spec_apply o M)).
+Proof.
+  intro N. destruct o as [b|b]; cbn [spec_apply].
+  - cbn [fst]. unfold spec_add. destruct b as [|k b]; auto.
+    destruct (existsb (is_prefix (k :: b)) M) eqn:E; auto.
+    constructor; [|apply NoDup_filter; auto].
+    rewrite filter_In. intros [I _].
+    assert (existsb (is_prefix (k :: b)) M = true); [|congruence].
+    apply existsb_exists. exists (k :: b). split; auto. apply is_prefix_refl.
+  - unfold spec_delete. destruct b as [|k b]; cbn [fst]; auto. apply NoDup_filter; auto.
+Qed.
+
+Lemma spec_run_NoDup : forall ops M, NoDup M -> NoDup (fst (spec_run ops M)).
+Proof.
+  induction ops as [|o r IH]; intros M N; [auto|].
+  rewrite spec_run_cons. cbn [fst]. apply IH. apply spec_apply_NoDup; auto.
+Qed.
+
+(* C15, the refinement: after any history from New(), the trie's members are the
+   reference set (as duplicate-free lists, up to order) and every Delete returned
+   what the reference says. *)
+Theorem trie_refines : forall ops,
+  wf (fst (run ops empty)) /\
+  Permutation (members (fst (run ops empty))) (fst (spec_run ops [])) /\
+  NoDup (members (fst (run ops empty))) /\
+  snd (run ops empty) = snd (spec_run ops []).
+Proof.
+  intro ops. destruct (run_refines ops empty [] wf_empty) as [W [S R]]; [intro; cbn; tauto|].
+  split; auto. split; [|split; auto].
+  - apply NoDup_Permutation; auto.
+    + apply members_NoDup; auto.
+    + apply spec_run_NoDup. constructor.
+  - apply members_NoDup; auto.
+Qed.
